@@ -312,13 +312,27 @@ class WorkerInteractor:
         )
 
 
+def _dumpable_text(text: str) -> str:
+    """Return ``text`` in a form execnet can send.
+
+    execnet only ships strings which are encodable as UTF-8; a lone
+    surrogate (e.g. from ``surrogateescape``-decoded data) is escaped
+    instead of making ``channel.send`` raise in the worker.
+    """
+    try:
+        execnet.dumps(text)
+    except execnet.DumpError:
+        return text.encode("utf-8", "backslashreplace").decode("utf-8")
+    return text
+
+
 def serialize_warning_message(
     warning_message: warnings.WarningMessage,
 ) -> dict[str, Any]:
     if isinstance(warning_message.message, Warning):
         message_module = type(warning_message.message).__module__
         message_class_name = type(warning_message.message).__name__
-        message_str = str(warning_message.message)
+        message_str = _dumpable_text(str(warning_message.message))
         # check now if we can serialize the warning arguments (#349)
         # if not, we will just use the exception message on the controller node
         try:
@@ -328,7 +342,7 @@ def serialize_warning_message(
         else:
             message_args = warning_message.message.args
     else:
-        message_str = warning_message.message
+        message_str = _dumpable_text(warning_message.message)
         message_module = None
         message_class_name = None
         message_args = None
